@@ -113,6 +113,7 @@ type Interp struct {
 	PowApplied   []*ssa.Function
 	loopIter     map[*ssa.BasicBlock]int
 	InitEvents   []Event
+	InitHashes   int
 	bigVals      map[*Cell]*Term
 }
 
@@ -156,6 +157,7 @@ func New(p *load.Prog, cfg Config) *Interp {
 		it.Trace = nil
 		it.InitEvents = it.Events
 		it.Events = nil
+		it.InitHashes = len(it.Hashes)
 		it.LeafCalls = 0
 		it.FuncsEntered = map[*ssa.Function]int{}
 	}
